@@ -53,6 +53,8 @@ def build(kind):
     item.inner.e = leaf("Inner E")
     item.d = cc.DictField(cc.StringField(), leaf())
     s.items = cc.ListField(item)
+    s.backups = cc.ListField(item)
+    s.ad = cc.DictField(value_field=leaf())       # any key, typed value
     s.ts = cc.ListField(CT)
     s.d = cc.DictField(cc.StringField(), leaf(), name="Typed D")
     s.l = cc.ListField(leaf())
@@ -167,6 +169,8 @@ def jobs(tier):
     b = bounds(tier)
     out = [{"name": "paths/%s" % k, "kind": "paths", "leaf": k, "formats": b["formats"]} for k in b["kinds"]]
     out.append({"name": "shape-errors", "kind": "shapes", "formats": b["formats"]})
+    for k in b["kinds"][:3] if tier == "quick" else b["kinds"]:
+        out.append({"name": "moves/%s" % k, "kind": "moves", "leaf": k})
     return out
 
 
@@ -176,6 +180,8 @@ def run_job(job, ctx):
         job = dict(single["jobparams_full"]); job["only"] = single["only"]
     if job["kind"] == "paths":
         _paths(job, ctx)
+    elif job["kind"] == "moves":
+        _moves(job, ctx)
     else:
         _shapes(job, ctx)
 
@@ -355,4 +361,148 @@ def _shapes(job, ctx):
                     judge(ctx, job, [sid, route, fmt, prior], "C15|shape|%s|%s|%s" % (sid, route + ("/" + fmt if fmt else ""), prior),
                           "shape error %s (%s=%s) via %s on a %s configuration" % (sid, top, V.show(val, 30), route, prior), exc, okpaths[0], None, loose=okpaths)
     ctx.states += len(SHAPE_ERRORS)
+    ctx.traces += 1
+
+
+# ---------------------------------------------------------------------------------------------
+# histories: a rejection, then the offending configuration moves, then another rejection
+# ---------------------------------------------------------------------------------------------
+MOVES = ["none", "del-first", "insert-front", "reverse", "to-other-list", "pop-append", "sort-swap"]
+TARGETS = ["c", "inner.e", "d[k]"]
+
+
+def _moves(job, ctx):
+    """the path must follow the configuration: every (prior, warm-up rejection?, move, target) combination"""
+    import cincoconfig as cc
+    kind = job["leaf"]
+    only = job.get("only")
+    bads = rejected_values(kind)[:2]
+    for prior in ("default", "loaded", "documented"):
+        for warm in (False, True):
+            for move in MOVES:
+                for target in TARGETS:
+                    for bi, badspec in enumerate(bads):
+                        key = [prior, warm, move, target, bi]
+                        if only is not None and only != key:
+                            continue
+                        schema, ok = build(kind)
+                        okv = V.dec(ok)
+                        if isinstance(okv, bytes):
+                            import base64
+                            okv = base64.b64encode(okv).decode()
+                        bad = V.dec(badspec)
+                        cfg = schema()
+                        tree = valid_tree(okv)
+                        tree["items"].append({"c": okv, "r": "third", "inner": {"e": okv}, "d": {"k": okv}})
+                        if prior == "loaded":
+                            cfg.load_tree(tree)
+                        elif prior == "documented":
+                            cfg.loads(cc.ConfigFormat.get("json").dumps(None, tree), "json")
+                        else:
+                            cfg.items = tree["items"]
+                            cfg.ts = tree["ts"]
+                        victim = cfg.items[1]           # the configuration we follow
+                        ctx.transitions += 1
+
+                        def reject(obj=victim):
+                            if target == "c":
+                                return attempt(lambda: setattr(obj, "c", bad))
+                            if target == "inner.e":
+                                return attempt(lambda: setattr(obj.inner, "e", bad))
+                            return attempt(lambda: obj.d.__setitem__("k", bad))
+                        if warm:
+                            w = reject()
+                            if w is not None:
+                                str(w), getattr(w, "ref_path", None)      # an application reports the first error
+                        try:
+                            if move == "del-first":
+                                del cfg.items[0]
+                                want = "items[0]"
+                            elif move == "insert-front":
+                                cfg.items.insert(0, {"c": okv, "r": "new", "inner": {"e": okv}, "d": {"k": okv}})
+                                want = "items[2]"
+                            elif move == "reverse":
+                                cfg.items.reverse()
+                                want = "items[1]"
+                            elif move == "to-other-list":
+                                cfg.items.remove(victim)
+                                cfg.backups = []
+                                cfg.backups.append(victim)
+                                want = "backups[0]"
+                            elif move == "pop-append":
+                                cfg.items.append(cfg.items.pop(1))
+                                want = "items[2]"
+                            elif move == "sort-swap":
+                                cfg.items[0], cfg.items[1] = cfg.items[1], cfg.items[0]
+                                want = "items[0]"
+                            else:
+                                want = "items[1]"
+                        except Exception as exc:  # noqa
+                            ctx.case(tuple(map(str, key)), "move:raises", True)
+                            ctx.violation("C15|moves|%s|move-raises" % move, "move %s raised %r" % (move, exc), _case(job, key))
+                            continue
+                        exc = reject()
+                        name = "Inner E" if target == "inner.e" else None
+                        ctx.case(tuple(map(str, key)), "move:%s:%s" % (move, type(exc).__name__ if exc else "accepted"), True)
+                        judge(ctx, job, key, "C15|moves|%s|%s|%s|%s" % (kind, move, target, prior) + ("|warm" if warm else ""),
+                              "%s leaf, items %s, %s, then %s=%s on the followed item" % (kind, prior, move, target, V.show(bad, 20)), exc, want + "." + target, name)
+    # stand-alone configurations that are attached later
+    for warm in (False, True):
+        for how in ("ctype-to-field", "ctype-to-list", "schema-item-to-list"):
+            key = ["standalone", warm, how]
+            if only is not None and only != key:
+                continue
+            schema, ok = build(kind)
+            okv = V.dec(ok)
+            bad = V.dec(bads[0])
+            cfg = schema()
+            ctx.transitions += 1
+            if how == "ctype-to-field":
+                obj = schema._fields["t"].config_type()
+                if warm:
+                    str(attempt(lambda: setattr(obj, "c", bad)))
+                cfg.t = obj
+                want = "t.c"
+            elif how == "ctype-to-list":
+                obj = schema._fields["ts"].field()
+                if warm:
+                    str(attempt(lambda: setattr(obj, "c", bad)))
+                cfg.ts = []
+                cfg.ts.append(obj)
+                want = "ts[0].c"
+            else:
+                obj = schema._fields["items"].field()
+                obj.r = "x"
+                if warm:
+                    str(attempt(lambda: setattr(obj, "c", bad)))
+                cfg.items = []
+                cfg.items.append(obj)
+                want = "items[0].c"
+            exc = attempt(lambda: setattr(obj, "c", bad))
+            ctx.case(tuple(map(str, key)), "standalone:%s" % how, True)
+            judge(ctx, job, key, "C15|moves|%s|standalone|%s" % (kind, how) + ("|warm" if warm else ""),
+                  "%s leaf, stand-alone configuration attached by %s" % (kind, how), exc, want, None)
+    # typed dict with arbitrary keys (Python routes only): the key is named whatever its type
+    for k in ("k", 5, ("r", "c"), ("a",), None, 1.5, True):
+        key = ["anykey", repr(k)]
+        if only is not None and only != key:
+            continue
+        schema, ok = build(kind)
+        bad = V.dec(bads[0])
+        cfg = schema()
+        for route in ("setitem", "assign", "update", "ctor"):
+            ctx.transitions += 1
+            if route == "setitem":
+                cfg.ad = {}
+                exc = attempt(lambda: cfg.ad.__setitem__(k, bad))
+            elif route == "assign":
+                exc = attempt(lambda: setattr(cfg, "ad", {k: bad}))
+            elif route == "update":
+                cfg.ad = {}
+                exc = attempt(lambda: cfg.ad.update({k: bad}))
+            else:
+                exc = attempt(lambda: schema(ad={k: bad}))
+            ctx.case(("anykey", repr(k), route), "anykey:%s:%s" % (route, type(exc).__name__ if exc else "accepted"), True)
+            judge(ctx, job, key, "C15|anykey|%s|%s|%s" % (kind, type(k).__name__, route), "typed dict entry with key %r via %s" % (k, route), exc, "ad[%s]" % (k,), None)
+    ctx.states += 1
     ctx.traces += 1
